@@ -1706,6 +1706,9 @@ impl proto::Peer for Peer {
                     why,
                 )
             })?);
+        } else if is_connect && !has_protocol {
+            // The target of a CONNECT request is conveyed by :authority.
+            malformed!("malformed headers: missing authority in CONNECT");
         }
 
         // A :scheme is required, except CONNECT.
